@@ -1,6 +1,7 @@
 (* C05/Property.v — property theorems only. *)
 From Coq Require Import ZArith Bool List String.
-From Verif Require Import Base.Str Base.Py C05.Model C05.Spec C05.Proofs C05.Source.
+From Verif Require Import Base.Str Base.Py C05.Model C05.Spec C05.Proofs C05.Source C05.Time C05.TimeProofs.
+From Verif Require C13.Lex.
 From VerifGen Require Import C05Src.
 Open Scope Z_scope.
 
@@ -40,3 +41,25 @@ Theorem c05_source_validate_before :
     = if validate_before now slack b then PBool true else PExc "ToEarly"%string.
 Proof. exact src_validate_before_is_model. Qed.
 Print Assumptions c05_source_validate_before.
+
+(* ---- the TEXT level of time stamps (C05/Time.v: str_to_time ; calendar.timegm as coded, compared with
+   the real functions on ~2800 texts per run).  The issuer writes time stamps with time_util.instant();
+   the acceptor reads exactly the same second back, for EVERY instant from the epoch to the end of
+   year 9999 (gmtime / strftime / strptime / timegm all modelled; calendar facts by one exhaustive
+   computation over the 146097 days of a 400-year era, lifted to all eras) *)
+Theorem c05_text_roundtrip : forall ts : N,
+  (ts < 253402300800)%N -> str_to_secs (C13.Lex.instant ts) = TVal (Z.of_N ts).
+Proof. exact str_to_secs_instant. Qed.
+Print Assumptions c05_text_roundtrip.
+
+(* calendar.timegm inverts time.gmtime on every non-negative time stamp *)
+Theorem c05_timegm_gmtime : forall ts : N, timegm (C13.Lex.gmtime ts) = Z.of_N ts.
+Proof. exact timegm_gmtime. Qed.
+Print Assumptions c05_timegm_gmtime.
+
+(* whatever text strptime lets through denotes a calendar date and a time of day *)
+Theorem c05_text_is_a_date : forall s y m d h mi sec,
+  strptime s = Some (y, m, d, h, mi, sec) ->
+  (1 <= y /\ 1 <= m /\ m <= 12 /\ 1 <= d /\ d <= Time.dim (Time.leap y) m /\ h <= 23 /\ mi <= 59 /\ sec <= 61)%N.
+Proof. exact strptime_is_a_date. Qed.
+Print Assumptions c05_text_is_a_date.
